@@ -159,6 +159,7 @@ func (impl Implementation) Dsteqr(compz lapack.EVComp, n int, d, e, z []float64,
 
 		// Scale submatrix in rows and columns L to Lend
 		anorm := impl.Dlanst(lapack.MaxAbs, lend-l+1, d[l:], e[l:])
+		iscale = 0
 		switch {
 		case anorm == 0:
 			continue
